@@ -1,10 +1,12 @@
 (* C05: names under which the inplace_string model of C04 (coq/C04/Model.v, ModelQ.v, Total.v) is extracted for the
    C05 correspondence run.  Pure aliases — the definitions (and the proofs about them) are C04's. *)
-From Tetl Require Import Lib.Base C08.Model C04.Model C04.ModelQ C04.Spec C04.Inv C04.CstrFacts C04.InvOps C04.Total.
+From Tetl Require Import Lib.Base C08.Model C04.Model C04.ModelQ C04.Spec C04.Inv C04.CstrFacts C04.InvOps C04.Total C05.SpecString.
 Local Open Scope Z_scope.
 
 Definition str_step (s : istr) (o : op) : res istr := C04.Model.step s o.
 Definition str_pre_ok (s : istr) (o : op) : bool := C04.Total.pre_ok s o.
+(* spec leg of the correspondence run: the documented precondition of the abstract value (SpecString.v) *)
+Definition str_pre_doc (size capacity : Z) (o : op) : bool := pre_doc size capacity o.
 Definition str_make (c : Z) (src : list Z) (len : Z) : res istr := ctor_ptr c CChar src len.
 Definition str_ctor_fill (c count ch : Z) : res istr := ctor_fill c CChar count ch.
 Definition str_make_w (c : Z) (src : list Z) (len : Z) : res istr := ctor_ptr c CWchar src len.
